@@ -3,6 +3,10 @@ use crate::common::*;
 pub mod c01;
 pub mod c02;
 pub mod c03;
+pub mod c04;
+pub mod c05;
+pub mod c06;
+pub mod c08;
 pub mod c17;
 pub mod c18;
 pub mod c19;
@@ -12,6 +16,10 @@ pub fn dispatch(ctx: &Ctx, replay: Option<String>) -> ! {
         "C01" => c01::run(ctx, replay),
         "C02" => c02::run(ctx, replay),
         "C03" => c03::run(ctx, replay),
+        "C04" => c04::run(ctx, replay),
+        "C05" => c05::run(ctx, replay),
+        "C06" => c06::run(ctx, replay),
+        "C08" => c08::run(ctx, replay),
         "C17" => c17::run(ctx, replay),
         "C18" => c18::run(ctx, replay),
         "C19" => c19::run(ctx, replay),
